@@ -1,8 +1,9 @@
 import PydlVerif.Model.JsonUtil
 import PydlVerif.Model.Fof
+import PydlVerif.Model.FofGrid
 open Lean
 namespace PydlVerif.Driver.C05
-open PydlVerif PydlVerif.Fof
+open PydlVerif PydlVerif.Fof PydlVerif.Sphere PydlVerif.FofGrid
 
 def optJ (o : Option Nat) : Json := match o with
   | none => J.ofInt (-1)
@@ -40,6 +41,28 @@ def handle (j : Json) : Except String Json := do
     let (n, rows) ← graph (← J.fld j "g")
     let chunks ← J.list (J.array J.nat) (← J.fld j "chunks")
     pure (outJ n (friendsRun n (closeOf rows) chunks))
+  | "grid" =>
+    -- the whole of spheregroup: grid built by the model itself (chunks + assign of the same list), at binary64
+    let ra ← J.fFloats j "ra"
+    let dec ← J.fFloats j "dec"
+    let ll ← J.fFloat j "ll"
+    let cs ← J.fOpt J.float j "cs"
+    let cells : List (String × Json) :=
+      match chunksInit ra dec (groupChunkSize ll cs) with
+      | .error e => [("griderr", Json.str e)]
+      | .ok g =>
+        match assign g ra dec ll with
+        | .error e => [("griderr", Json.str e)]
+        | .ok cl => [("nDec", J.ofNat g.nDec), ("nRa", J.ofArray J.ofNat g.nRa),
+                     ("cells", J.ofList (J.ofArray J.ofNat) (cellLists g.nDec g.nRa cl))]
+    match spheregroup ra dec ll cs with
+    | .ok o =>
+      if !o.ok then pure (Json.mkObj (("err", Json.str "model: loop does not terminate / index out of range") :: cells))
+      else pure (Json.mkObj ([("in", J.ofList J.ofNat ((List.range ra.size).map o.inG.get)),
+              ("mult", J.ofList J.ofNat ((List.range ra.size).map o.mult.get)),
+              ("first", J.ofList optJ ((List.range ra.size).map o.L.first.get)),
+              ("next", J.ofList optJ ((List.range ra.size).map o.L.next.get))] ++ cells))
+    | .error e => pure (Json.mkObj (("err", Json.str e) :: cells))
   | _ => throw s!"C05: unknown op {op}"
 
 end PydlVerif.Driver.C05
